@@ -26,7 +26,7 @@ class Obligation:
 
 class Contract:
     def __init__(self, qual, params=None, requires=(), ensures=(), raises=None, modifies=None, loops=None, result=None,
-                 props=(), pure=False, ghost=None, trusted=False, no_raise=True, old_names=None, note="", lemmas=(), allocates=False, cases=(), asserts=(), assume_pre=(), lemma_at=(), local_types=None):
+                 props=(), pure=False, ghost=None, trusted=False, no_raise=True, old_names=None, note="", lemmas=(), allocates=False, cases=(), asserts=(), assume_pre=(), lemma_at=(), local_types=None, names_result=()):
         self.qual = qual
         self.params = params or {}          # name -> type descriptor
         self.requires = list(requires)      # [expr str]
@@ -44,6 +44,7 @@ class Contract:
         self.trusted = trusted              # assumed (A): external function, no body obligations
         self.ghost = ghost or {}
         self.note = note
+        self.names_result = list(names_result)   # clauses that merely NAME the returned value by a fresh function of the arguments (assumed at call sites only; sound for a single call per state)
         self.local_types = dict(local_types or {})   # element types of local lists that start empty (name -> "list:<elem>")
         self.lemma_at = list(lemma_at)      # [(lemma name, anchor, instance expr)]: instance of a separately proved lemma, assumed just before the anchored statement
         self.assume_pre = list(assume_pre)  # callee quals whose preconditions are ASSUMED at this function's call sites (listed as assumptions)
@@ -1674,7 +1675,7 @@ class Exec:
         for n in ast.walk(fn):
             if isinstance(n, ast.Call):
                 for a in list(n.args) + [k.value for k in n.keywords]:
-                    if isinstance(a, ast.Name) and a.id in cands and not (isinstance(n.func, ast.Name) and n.func.id in ("len", "enumerate", "range")):
+                    if isinstance(a, ast.Name) and a.id in cands and not (isinstance(n.func, ast.Name) and n.func.id in ("len", "enumerate", "range", "zip", "reversed", "sorted")):
                         bad.add(a.id)
                 if isinstance(n.func, ast.Attribute) and isinstance(n.func.value, ast.Name) and n.func.value.id in cands:
                     bad.add(n.func.value.id)
@@ -2000,6 +2001,12 @@ class Exec:
         return out
 
     def iter_len(self, L, st):
+        if isinstance(L, ZipV):
+            n = self.llen(st, L.lists[0])
+            for o in L.lists[1:]:
+                m = self.llen(st, o)
+                n = z3.If(m < n, m, n)
+            return n
         if isinstance(L, ConstList):
             return z3.IntVal(len(L.items))
         if getattr(L, "frozen_heap", None) is not None:
@@ -2009,6 +2016,10 @@ class Exec:
     def bind_iter(self, x, L, i, st, enum):
         if isinstance(L, ConstList):
             raise VCError("invariant loop over constant list (should be unrolled)")
+        if isinstance(L, ZipV):
+            el = TupleV([self.lget(st, l_, i) for l_ in L.lists])
+            self.bind(x.target, TupleV([Num(i), el]) if enum else el, st)
+            return
         el = self.lget(st, L, i, heap=getattr(L, "frozen_heap", None))
         if enum:
             self.bind(x.target, TupleV([Num(i), el]), st)
@@ -2024,6 +2035,11 @@ class Exec:
 
         def cont(e, s):
             s = s.cp()
+            if isinstance(e, ast.Call) and isinstance(e.func, ast.Name) and e.func.id == "zip":
+                ls = [self.ev(a, s) for a in e.args]
+                if not all(isinstance(l_, ListV) for l_ in ls):
+                    raise VCError("zip() of non-heap lists")
+                return self.run_loop(x, s, iter_list=ZipV(ls), enum=enum)
             if isinstance(e, ast.Call) and isinstance(e.func, ast.Name) and e.func.id == "range":
                 L = self.range_list(e, s)
                 if isinstance(L, ListV):
